@@ -82,12 +82,13 @@ type State struct {
 	ghostDefers []string
 	hints       []hintSite
 	results     []Value
+	goals       map[*Term]bool // pc entries that are assumed proof goals (excluded from vacuity covers)
 }
 
 func (s *State) top() *Frame { return s.stack[len(s.stack)-1] }
 
 func (s *State) clone() *State {
-	n := &State{heap: make(map[*Object]interface{}, len(s.heap)), steps: s.steps, ghostDefers: append([]string(nil), s.ghostDefers...), hints: append([]hintSite(nil), s.hints...), results: s.results}
+	n := &State{heap: make(map[*Object]interface{}, len(s.heap)), steps: s.steps, ghostDefers: append([]string(nil), s.ghostDefers...), hints: append([]hintSite(nil), s.hints...), results: s.results, goals: copyGoals(s.goals)}
 	for k, v := range s.heap {
 		n.heap[k] = v
 	}
@@ -113,6 +114,37 @@ func (s *State) clone() *State {
 		n.stack = append(n.stack, &nf)
 	}
 	return n
+}
+
+func copyGoals(m map[*Term]bool) map[*Term]bool {
+	n := make(map[*Term]bool, len(m))
+	for k, v := range m {
+		n[k] = v
+	}
+	return n
+}
+
+// coverHyps: the path condition without assumed goals (a failed goal must not make the
+// reachability covers of the same path vacuous).
+func (s *State) coverHyps() []*Term {
+	var out []*Term
+	for _, h := range s.pc {
+		if !s.goals[h] {
+			out = append(out, h)
+		}
+	}
+	return out
+}
+
+func (s *State) assumeGoal(t *Term) {
+	if s.goals == nil {
+		s.goals = map[*Term]bool{}
+	}
+	before := len(s.pc)
+	s.assume(t)
+	for _, h := range s.pc[before:] {
+		s.goals[h] = true
+	}
 }
 
 func (s *State) assume(t *Term) {
@@ -161,6 +193,13 @@ type Engine struct {
 	noCover       bool
 	curArgs       []Value
 	lemmasUsed    map[string]bool
+	leafClass     []leafClass
+	curProp       string
+}
+
+type leafClass struct {
+	prefix string
+	class  string
 }
 
 func (e *Engine) note(s string) { e.notes[s] = true }
@@ -195,7 +234,7 @@ func (e *Engine) emit(s *State, kind, site string, goal *Term, pos token.Pos, sr
 		ob.run = &runInfo{fn: e.curFn, mode: e.mode, args: e.curArgs, results: s.results, hints: append([]hintSite(nil), s.hints...)}
 	}
 	e.obligs = append(e.obligs, ob)
-	s.assume(goal)
+	s.assumeGoal(goal)
 }
 
 func funcKey(fn *ssa.Function) string {
@@ -357,11 +396,12 @@ func getLoops(fn *ssa.Function) *loopInfo {
 // values from types
 
 func (e *Engine) isFrontendVariable(t types.Type) bool {
-	n, ok := t.(*types.Named)
+	n, ok := types.Unalias(t).(*types.Named)
 	return ok && n.Obj().Pkg() != nil && n.Obj().Pkg().Path() == "github.com/consensys/gnark/frontend" && n.Obj().Name() == "Variable"
 }
 
 func namedPath(t types.Type) string {
+	t = types.Unalias(t)
 	if p, ok := t.(*types.Pointer); ok {
 		return "*" + namedPath(p.Elem())
 	}
